@@ -1,7 +1,24 @@
 import GemVerif.Props.C08
+import GemVerif.Props.C08Max
 #print axioms GemVerif.Props.C08.leftStar_eq_dJ
 #print axioms GemVerif.Props.C08.rightStar_eq_dJ
 #print axioms GemVerif.Props.C08.leftSwitch_eq_dJ
 #print axioms GemVerif.Props.C08.rightSwitch_eq_dJ
 #print axioms GemVerif.Props.C08.doubleStar_eq_dJ
 #print axioms GemVerif.Props.C08.realloc_eq_dJ
+#print axioms GemVerif.Props.C08Max.admissible_iff
+#print axioms GemVerif.Props.C08Max.switch_guard_redundant
+#print axioms GemVerif.Props.C08Max.realloc_guard_redundant
+#print axioms GemVerif.Props.C08Max.computeAllSplits_ge_best
+#print axioms GemVerif.Props.C08Max.computeAllSplits_max
+#print axioms GemVerif.Props.C08Max.computeAllSplits_attained
+#print axioms GemVerif.Props.C08Max.candAt_fields
+#print axioms GemVerif.Props.C08Max.evaluated_iff
+#print axioms GemVerif.Props.C08Max.findBestSplit_uses_candAt
+#print axioms GemVerif.Props.C08Max.evaluatedB_iff
+#print axioms GemVerif.Props.C08Max.findBestSplit_max
+#print axioms GemVerif.Props.C08Max.findBestSplit_attained
+#print axioms GemVerif.Props.C08Max.findBestSplit_gain_nonneg
+#print axioms GemVerif.Props.C08Max.no_positive_gain_means_none
+#print axioms GemVerif.Props.C08Max.fitStep_applies_best
+#print axioms GemVerif.Props.C08Max.fit_stops_only_without_positive_gain
